@@ -122,27 +122,40 @@ def finish (c : Codec) (t : Nat) (body : Bytes) : ROut :=
         | some j => .pkt t j
       else .pkt t b
 
-/-- `ReadPacket` over a chunked source. -/
-def readPacket (c : Codec) (s : Src) : ROut × Src :=
-  let r := s.read constants.PacketTypeSize           -- readPacketType: one Read into a 1-byte buffer
-  match r.err with
-  | some _ => (.fail .type, r.rest)
-  | none =>
-    match r.data with
-    | [tb] =>
-      let t := tb.toNat
-      if packet.Type.IsHeartbeat t then (.pkt t [], r.rest)
-      else
-        match r.rest.readFull constants.PacketBodySizeBytes with   -- readPacketBodySize: io.ReadFull
-        | .short _ tl => (.fail .size, ⟨[], tl⟩)
-        | .ok szb s2 =>
-          let n := unbe32 szb
-          if n > constants.MaxPacketBodySize then (.fail .tooLarge, s2)
-          else
-            match s2.readFull n with                               -- readPacketBody: read loop
-            | .short _ tl => (.fail .body, ⟨[], tl⟩)
-            | .ok body s3 => (finish c t body, s3)
-    | _ => (.fail .shortType, r.rest)
+/-- `ReadPacket` over a chunked source whose transport may (`eager`) report the end of the stream
+together with the last bytes.  `readPacketType` looks at the byte it was given before it looks at the
+error (fix cf50c4d), so the outcome does not depend on `eager` (`readPacketG_eager`). -/
+def readPacketG (eager : Bool) (c : Codec) (s : Src) : ROut × Src :=
+  let r := s.readE eager constants.PacketTypeSize           -- readPacketType: one Read into a 1-byte buffer
+  match r.data with
+  | [tb] =>
+    let t := tb.toNat
+    if packet.Type.IsHeartbeat t then (.pkt t [], r.rest)
+    else
+      match r.rest.readFull constants.PacketBodySizeBytes with   -- readPacketBodySize: io.ReadFull
+      | .short _ tl => (.fail .size, ⟨[], tl⟩)
+      | .ok szb s2 =>
+        let n := unbe32 szb
+        if n > constants.MaxPacketBodySize then (.fail .tooLarge, s2)
+        else
+          match s2.readFull n with                               -- readPacketBody: read loop
+          | .short _ tl => (.fail .body, ⟨[], tl⟩)
+          | .ok body s3 => (finish c t body, s3)
+  | _ =>
+    match r.err with
+    | some _ => (.fail .type, r.rest)
+    | none => (.fail .shortType, r.rest)
+
+/-- `ReadPacket` on a transport that reports the end separately (TCP, WebSocket wrappers). -/
+def readPacket (c : Codec) (s : Src) : ROut × Src := readPacketG false c s
+
+/-- As found before fix cf50c4d: the error was looked at first. -/
+def readPacketTypeErrFirst (eager : Bool) (s : Src) : Option Nat :=
+  match (s.readE eager constants.PacketTypeSize).err with
+  | some _ => none
+  | none => match (s.readE eager constants.PacketTypeSize).data with
+    | [tb] => some tb.toNat
+    | _ => none
 
 /-- What the reader side observes: the packets decoded before the first
 failure, the failure, and the bytes left unread at that point. -/
@@ -161,6 +174,16 @@ def readAll (c : Codec) : Nat → Src → Obs
     | (.fail e, s') => ⟨[], e, s'.flat⟩
     | (.pkt t b, s') =>
       let o := readAll c f s'
+      ⟨(t, b) :: o.pkts, o.stop, o.leftover⟩
+
+/-- `readAll` on a transport that may report the end together with the last bytes. -/
+def readAllG (eager : Bool) (c : Codec) : Nat → Src → Obs
+  | 0, s => ⟨[], .type, s.flat⟩
+  | f + 1, s =>
+    match readPacketG eager c s with
+    | (.fail e, s') => ⟨[], e, s'.flat⟩
+    | (.pkt t b, s') =>
+      let o := readAllG eager c f s'
       ⟨(t, b) :: o.pkts, o.stop, o.leftover⟩
 
 /-! ### The same decoder on a flat byte string (chunk-free specification) -/
